@@ -9,6 +9,10 @@ CHECKS = {
    text="TLC evaluates the wire specification (Wire.tla: Enc, Alts; Ndjson.tla: Json) over a bounded universe of types x edge values, checks UniquelyDecodable/UntaggedIsDecodable on it and exports every case; each case is then decoded from the spec's bytes by the generated C++ and Python binary readers and re-encoded by the generated writers (bytes must be in the spec's admissible set), and cross-checked at value level through NDJSON in both directions.",
    note="Bounded universe (quick: depth-1 constructors over 9 element types + JSON-kind union matrix + seeded depth-2 sample; thorough: all primitives, both union orientations, larger depth-2 sample). Float/string/date leaves are opaque tokens whose bytes come from Python struct/datetime. C++ is compiled against /verif's date.h and N-d array shims. HDF5/MATLAB not executed.",
    tech="TLA+ functional spec evaluated by TLC, one implementation execution per exported case (membership in spec-computed encoding sets)"),
+ "C02": dict(cat="model_checking", engine="tlc-export+generated-code",
+   text="TLC evaluates the NDJSON mapping of spec/wire/Ndjson.tla (Json, Kinds, Untagged) over the bounded universe, including a two-case union for every pair of JSON-kind classes (tagged/untagged decision) and record values that differ in which optional fields are present, checks UntaggedIsDecodable and exports every case; each case is read from the spec's NDJSON by the generated C++ and Python readers and re-written (output must equal the documented JSON tree), and cross-checked against the spec's binary encoding in both directions.",
+   note="Same bounded universe as C01. JSON compared as values (numbers numerically, float32 after rounding, object key order ignored, time fractions may drop trailing zeros as the reference's FFFFFFFFF format allows); non-finite floats excluded. C++ date/time text comes from /verif's date.h shim.",
+   tech="TLA+ functional spec evaluated by TLC, one implementation execution per exported case (equality with spec-computed JSON trees)"),
  "C18": dict(cat="model_checking", engine="tlc+cli-replay",
    text="TLC explores the implementation-shaped loader of spec/tool/Imports.tla on every configuration (ordered import lists x namespace labelling) of <=3 directories incl. self-imports, of 4 directories, and of a chain+shortcut family that reaches the real depth limit, checking OutcomeMatches/LoadedExactlyReach/Terminates against the abstract requirement; every exported terminal state is then replayed on the real `yardl generate` (exit status, model.json, generated Python for shared-dependency graphs) and the hook trace of collectPackages is compared with the spec behaviour.",
    note="Exhaustive within the stated bounds (quick replays a seeded sample of the 4-directory space, thorough all of it). Local directory imports only; error wording not asserted; the exact depth boundary (= limit) is left to the tool.",
